@@ -210,9 +210,9 @@ Definition run_cmp (a : list Z * list (list (Z * nat))) : val :=
   let (names, rks) := a in
   let cs := map (aligned names) rks in
   VL [eTable eQ cs;
-      eTable eQ (map (fun v => map (fun u => Qred (scov v u)) cs) cs);
-      eTable eQ (map (fun v => map (fun u => Qred (hamming v u)) cs) cs);
-      eTable eQ (map (fun v => map (fun u => Qred (cov_r v u)) cs) cs);
+      eTable eQ (cmp_table (fun v u => Qred (scov v u)) cs);
+      eTable eQ (cmp_table (fun v u => Qred (hamming v u)) cs);
+      eTable eQ (cmp_table (fun v u => Qred (cov_r v u)) cs);
       eL eQ (map pvar_r cs)].
 
 (* ---- C17: equality and diff ------------------------------------------------------------------ *)
